@@ -55,6 +55,35 @@ def ref_fn(r):
     return out
 
 
+ALLKEYS = list(DTKEYS) + list(VALKEYS) + ['rho_n', 'fluxup3_n'] \
+    + list(CONSTRAINTS)
+
+
+def ref_scale_table(ref, box):
+    """{key: (reference array, scale of the error, size of the reference)}
+    for every key the check requests."""
+    hs = max(float(ref['_hamscale'].max()), 1e-6)
+    ms = max(float(ref['_momscale'].max())
+             + float(np.abs(ref['Ktrace']).max()) / box, 1e-6)
+    out = {}
+    for k in list(DTKEYS) + list(VALKEYS) + ['rho_n', 'fluxup3_n']:
+        rmax = float(np.abs(ref[k]).max())
+        # scale of a dt-quantity: the larger of its own size and the size of
+        # the terms that build it
+        sc = max(rmax, 1e-2 if (k in DTKEYS or k == 's_Gamma_bssnok')
+                 else 1e-12)
+        if k == 'dtKtrace':
+            sc = max(sc, float(ref['_dtKscale'].max()))
+        if k in ('Adown3_bssnok', 'Ktrace'):
+            # A = 0 exactly for pure-trace K: judge on |K|
+            sc = max(sc, 1e-3 * float(ref['_Kmax'].max()))
+        out[k] = (ref[k], sc, rmax)
+    for k in CONSTRAINTS:
+        sc = hs if k == 'Hamiltonian' else ms
+        out[k] = (None, sc, sc)         # reference None: zero
+    return out
+
+
 def case(task):
     desc, p, vacuum, Ns, seed = task
     res = {'task': [list(desc), p, vacuum, list(Ns)], 'err': {},
@@ -65,36 +94,17 @@ def case(task):
             rel, st, (X, Y, Z), inp = gc.build_core(
                 desc, seed, p, N, with_T=True, vacuum=vacuum)
             ref = gc.ref_chunks(st, fields.T0, X, Y, Z, ref_fn)
-            hs = max(float(ref['_hamscale'].max()), 1e-6)
-            box = N * rel.param['dx']
-            ms = max(float(ref['_momscale'].max())
-                     + float(np.abs(ref['Ktrace']).max()) / box, 1e-6)
+            table = ref_scale_table(ref, N * rel.param['dx'])
             fwd = {}
             with gc.quiet():
-                for k in list(DTKEYS) + list(VALKEYS) + ['rho_n',
-                                                         'fluxup3_n']:
+                for k in ALLKEYS:
                     val = rel[k]
                     fwd[k] = np.array(val, copy=True)
-                    rmax = float(np.abs(ref[k]).max())
-                    # scale of a dt-quantity: the larger of its own size
-                    # and the size of the terms that build it
-                    sc = max(rmax, 1e-2 if (k in DTKEYS or k ==
-                                            's_Gamma_bssnok') else 1e-12)
-                    if k == 'dtKtrace':
-                        sc = max(sc, float(ref['_dtKscale'].max()))
-                    if k in ('Adown3_bssnok', 'Ktrace'):
-                        # A = 0 exactly for pure-trace K: judge on |K|
-                        sc = max(sc, 1e-3 * float(ref['_Kmax'].max()))
-                    res['err'].setdefault(k, []).append(
-                        gc.err(val, ref[k], sc))
+                    refk, sc, rmax = table[k]
+                    res['err'].setdefault(k, []).append(gc.err(
+                        val, np.zeros_like(val) if refk is None else refk,
+                        sc))
                     res['refmax'][k] = rmax
-                for k in CONSTRAINTS:
-                    val = rel[k]
-                    fwd[k] = np.array(val, copy=True)
-                    sc = hs if k == 'Hamiltonian' else ms
-                    res['err'].setdefault(k, []).append(
-                        gc.err(val, np.zeros_like(val), sc))
-                    res['refmax'][k] = sc
             if N == Ns[0]:
                 res['order'] = gc.order_dependence(
                     desc, seed, p, N, list(fwd), fwd, with_T=True,
@@ -105,6 +115,16 @@ def case(task):
                     res['lamattr'] = gc.lambda_attribute_dependence(
                         desc, seed, p, N, list(fwd), fwd, with_T=True,
                         vacuum=vacuum)
+        def ref_scale(N):
+            rel, st, (X, Y, Z), inp = gc.build_core(
+                desc, seed, p, N, with_T=True, vacuum=vacuum)
+            ref = gc.ref_chunks(st, fields.T0, X, Y, Z, ref_fn)
+            return {k: v[:2] for k, v in ref_scale_table(
+                ref, N * rel.param['dx']).items()}
+        # a variant that differs from the forward values is judged against
+        # the reference like them (grcommon.alt_errors)
+        gc.alt_errors(res, desc, seed, p, Ns, ALLKEYS, ref_scale,
+                      with_T=True, vacuum=vacuum)
     except Exception:      # noqa: BLE001
         import traceback
         res['raised'] = traceback.format_exc()[-600:]
@@ -156,46 +176,50 @@ def judge(run, task, res):
         run.violation(f"C06:raised:{desc[0]}", f"{tag}: {res['raised']}",
                       {'task': res['task']})
         return
-    for k, d in res.get('lamattr', {}).items():
-        run.count('lambda_attribute_comparisons')
-        if not d <= 1e-12:
-            run.violation(f"C06:Lambda-as-attribute:{k}",
-                          f"{tag}: {k} differs by {d:.2e} (relative) when "
-                          "the cosmological constant is assigned to "
-                          "rel.Lambda after construction instead of passed "
-                          "as a keyword", {'task': res['task'], 'key': k})
-    for k, d in res.get('style', {}).items():
-        run.count('input_style_comparisons')
-        if not d <= 1e-9:
-            run.violation(f"C06:input-style:{k}",
-                          f"{tag}: {k} differs by {d:.2e} (relative) when "
-                          "metric, curvature and shift are given by "
-                          "components instead of arrays (fresh instance, "
-                          "reverse request order)",
-                          {'task': res['task'], 'key': k})
-    for k, d in res.get('order', {}).items():
-        run.count('order_comparisons')
-        if not d <= 1e-9:
-            run.violation(f"C06:order-dependent:{k}",
-                          f"{tag}: {k} differs by {d:.2e} (relative) when "
-                          "the same keys are requested in reverse order on "
-                          "a fresh instance", {'task': res['task'], 'key': k})
     exact = desc[0] == 'ds'
+
+    def judge_err(k, e_lo, e_hi):
+        if k in ALG or exact:
+            return (e_lo <= 1e-9 and e_hi <= 1e-9,
+                    f"algebraic/exact key: rel err {e_lo:.2e},{e_hi:.2e}")
+        # badly scaled data: large terms (~1/a^2) cancel in the
+        # dt-quantities; the error relative to the result is larger at
+        # equal resolution (it still has to fall at the scheme's order)
+        return gc.converges(e_lo, e_hi, p, cap=gc.CAPS[p] * (
+            30 if desc[0] in ('scaled', 'ads') else 1))
+
+    for kind, sig, limit, text in (
+            ('lamattr', 'Lambda-as-attribute', 1e-12,
+             "the cosmological constant is assigned to rel.Lambda after "
+             "construction instead of passed as a keyword"),
+            ('style', 'input-style', 1e-9,
+             "metric, curvature and shift are given by components instead "
+             "of arrays (fresh instance, reverse request order)"),
+            ('order', 'order-dependent', 1e-9,
+             "the same keys are requested in reverse order on a fresh "
+             "instance")):
+        for k, d in res.get(kind, {}).items():
+            run.count({'lamattr': 'lambda_attribute_comparisons',
+                       'style': 'input_style_comparisons',
+                       'order': 'order_comparisons'}[kind])
+            if d <= limit:
+                continue
+            ok, why = gc.alt_verdict(res, kind, k, judge_err)
+            if ok:
+                run.count('variant_differs_but_converges')
+                continue
+            run.violation(f"C06:{sig}:{k}",
+                          f"{tag}: {k} differs by {d:.2e} (relative) when "
+                          f"{text}, and the variant does not converge to "
+                          f"the exact value either ({why})",
+                          {'task': res['task'], 'key': k})
     for k, (e_lo, e_hi) in res['err'].items():
         nontrivial = res['refmax'][k] > 1e-6
         run.seen(desc, p, vacuum, k, nontrivial)
         run.count('comparisons')
         if nontrivial:
             run.count('nontrivial_comparisons')
-        if k in ALG or exact:
-            ok = e_lo <= 1e-9 and e_hi <= 1e-9
-            why = f"algebraic/exact key: rel err {e_lo:.2e},{e_hi:.2e}"
-        else:
-            # badly scaled data: large terms (~1/a^2) cancel in the
-            # dt-quantities; the error relative to the result is larger at
-            # equal resolution (it still has to fall at the scheme's order)
-            ok, why = gc.converges(e_lo, e_hi, p, cap=gc.CAPS[p] * (
-                30 if desc[0] in ('scaled', 'ads') else 1))
+        ok, why = judge_err(k, e_lo, e_hi)
         if not ok:
             kind = ('constraint' if k in CONSTRAINTS else
                     'dt' if k in DTKEYS else 'value')
